@@ -106,7 +106,7 @@ def main():
         chk.violation("model-build", "Coq model does not compile: " + log[-1500:], {"kind": "model-build", "log": log[-4000:]}, found=False)
         return chk.finish()
     root = vlib.scratch("C16-run-")
-    ncases, nq = (1500, 12) if not chk.thorough else (20000, 20)
+    ncases, nq = (3000, 12) if not chk.thorough else (20000, 20)
     st = {"queries": 0, "count_ok": 0, "count_bad": 0, "fields": 0, "eof_model_ok": 0, "bof_model_ok": 0, "bof_checked": 0,
           "nframes": 0, "bykey": {}, "sigs": set()}
     seen = {}
